@@ -29,7 +29,9 @@ func init() {
 }
 
 func c05Pool(tier string) []string {
-	p := []string{"a.x", "b.x", "z.y", "-a.x", ".h.x", "d/a.x", "d/.h.x", ".hd/a.x", "d/.hd/a.x", "d/e/a.x", "dx/a.x", "@zl.x"}
+	p := []string{"a.x", "b.x", "z.y", "-a.x", ".h.x", "d/a.x", "d/.h.x", ".hd/a.x", "d/.hd/a.x", "d/e/a.x", "dx/a.x", "@zl.x",
+		// a directory whose name is pattern syntax (file routers, template directories)
+		"[d]/a.x"}
 	if tier == "thorough" {
 		p = append(p, "~t.x", "d/e/.h.x", "e/a.x")
 	}
